@@ -18,6 +18,7 @@ func main() {
 		NQuick:    400,
 		NThorough: 2500,
 		Corpus:    corpus,
+		Extra:     metaExtra,
 		VM:        true,
 	})
 }
@@ -35,6 +36,10 @@ var corpus = []string{
 	`local o = setmetatable({}, {__unm = function(a) return "neg" end, __tostring = function() return "str!" end, __metatable = "locked"}); emit(-o, tostring(o), getmetatable(o)); emit(pcall(function() return setmetatable(o, {}) end))`,
 	`local u = newud(); local mt = {__index = function(u, k) return k .. "?" end, __add = function(a, b) return "ud+" end}; local v = newud(mt); emit(v.foo, v + 1, 2 + v, type(v)); emit(pcall(function() return u.x end))`,
 	`local depth = setmetatable({}, {__index = setmetatable({}, {__index = setmetatable({}, {__index = function(t, k) return "deep:" .. k end})})}); emit(depth.key); local nmt = setmetatable({}, {__newindex = setmetatable({}, {__newindex = function(t,k,v) emit("deepset", k, v) end})}); nmt.q = 1; emit(rawget(nmt, "q"))`,
+	// rawset returns its table (lbaselib.c luaB_rawset: return 1): chaining and the memoizing __index idiom
+	`local t = {}; emit(select("#", rawset(t, "k", 1)), rawset(t, "j", 2) == t); emit(rawset(rawset({}, 1, "a"), 2, "b")[1]); local memo = setmetatable({}, {__index = function(self, k) emit("miss", k) return rawset(self, k, k * 2)[k] end}); emit(memo[21], memo[21], rawget(memo, 21))`,
+	// setmetatable with the second argument missing is an error and changes nothing (luaL_argcheck "nil or table expected")
+	`local t = setmetatable({}, {__index = function(t, k) return "served" end}); emit(pcall(setmetatable, t) == false, t.x); emit(pcall(function() return setmetatable(t) end) == false, t.y); setmetatable(t, nil); emit(t.z)`,
 	// fixed 52e547f: numbers and numeric strings are computed before an arithmetic handler is looked for
 	`local smt = getmetatable(""); smt.__add = function(a, b) emit("str-add", a, b); return "mm" end; emit("10" + 1, 1 + "10", "10" + "2"); emit(pcall(function() return "a" + 1 end)); emit(pcall(function() return 1 + "a" end)); local t = setmetatable({}, {__add = function(a, b) return type(a) .. type(b) end}); emit("10" + t, t + "10", t + 1); smt.__add = nil`,
 }
